@@ -138,6 +138,25 @@ ErrClass(cls) == [t |-> "E", wf |-> TRUE, dup |-> FALSE, cls |-> cls]
 ErrTooBig == [t |-> "E", wf |-> TRUE, dup |-> FALSE, code |-> "54000", fatal |-> FALSE]
 
 (***************************************************************************)
+(* The grammar of backend messages, over the structural facts the strict   *)
+(* decoder reports for one framed message (the frame itself - type byte,   *)
+(* length = 4 + body - is what made it a message):                         *)
+(*   known   the type byte is a backend message type                       *)
+(*   parsed  every fixed-size field and NUL-terminated string was there    *)
+(*   decl / items  the declared count and the items present (-1: no count) *)
+(*   trail   bytes left after the last item                                *)
+(*   ErrorResponse: term (closed by a zero byte), dup (a field code        *)
+(*   twice), mand (severity, SQLSTATE and message present)                 *)
+(***************************************************************************)
+GrammarOK(m) ==
+    IF m.t = "ssl" THEN m.b \in {"S", "N"}
+    ELSE /\ m.t # "?"                      \* a partial frame or an impossible length
+         /\ m.known /\ m.parsed /\ m.trail = 0
+         /\ m.decl = m.items
+         /\ (m.t \in {"E", "N"} => m.term /\ ~m.dup /\ m.mand)
+         /\ (m.t = "Z" => m.st \in {"I", "T", "E"})
+
+(***************************************************************************)
 (* Placeholder counting (ParseParameters).  A query is a sequence of       *)
 (* tokens [k |-> "text"], [k |-> "q"] (a "?" marker) or                    *)
 (* [k |-> "d", n |-> index] (a "$n" marker; n = -1 stands for an index     *)
